@@ -11,7 +11,7 @@ Open Scope Q_scope.
 (* ================================================================ vocabulary *)
 Definition wtotal (cur : wprofile) : Q := lsum (fun bw : sballot * Q => snd bw) cur.
 (* the supporters of [c]: the ballots that score it (at any level) *)
-Definition support (c : C) (cur : wprofile) : Q :=
+Definition asupport (c : C) (cur : wprofile) : Q :=
   lsum (fun bw : sballot * Q => if dmem (fst bw) c then snd bw else 0) cur.
 Definition wpos (cur : wprofile) : Prop := Forall (fun bw : sballot * Q => 0 < snd bw) cur.
 Definition wposb (cur : wprofile) : bool := forallb (fun bw : sballot * Q => negb (Qle_bool (snd bw) 0)) cur.
@@ -293,31 +293,31 @@ Proof. unfold is_best, dmem. destruct (dget b c); [reflexivity|discriminate]. Qe
 Lemma wpos_in cur bw : wpos cur -> In bw cur -> 0 < snd bw.
 Proof. unfold wpos. rewrite Forall_forall. intros H Hin. exact (H bw Hin). Qed.
 
-Lemma lvl_le_support c bs cur : wpos cur -> lvl c bs cur <= support c cur.
+Lemma lvl_le_support c bs cur : wpos cur -> lvl c bs cur <= asupport c cur.
 Proof.
   intros Hp. apply lsum_le. intros bw Hin. pose proof (wpos_in _ _ Hp Hin).
   destruct (is_best c bs (fst bw)) eqn:E; [rewrite (is_best_dmem _ _ _ E); lra|].
   destruct (dmem (fst bw) c); lra.
 Qed.
 
-Lemma support_le_total c cur : wpos cur -> support c cur <= wtotal cur.
+Lemma support_le_total c cur : wpos cur -> asupport c cur <= wtotal cur.
 Proof.
   intros Hp. apply lsum_le. intros bw Hin. pose proof (wpos_in _ _ Hp Hin). destruct (dmem (fst bw) c); lra.
 Qed.
 
-Lemma support_nonneg c cur : wpos cur -> 0 <= support c cur.
+Lemma support_nonneg c cur : wpos cur -> 0 <= asupport c cur.
 Proof.
   intros Hp. apply lsum_nonneg_pos. intros bw Hin. pose proof (wpos_in _ _ Hp Hin). destruct (dmem (fst bw) c); lra.
 Qed.
 
-Lemma support_all c cur : all_support c cur -> support c cur == wtotal cur.
+Lemma support_all c cur : all_support c cur -> asupport c cur == wtotal cur.
 Proof.
   intros H. apply lsum_eq. intros bw Hin. specialize (H bw Hin). unfold dmem. destruct (dget (fst bw) c); [reflexivity|congruence].
 Qed.
 
-Lemma support_none c cur : no_supporters c cur -> support c cur == 0.
+Lemma support_none c cur : no_supporters c cur -> asupport c cur == 0.
 Proof.
-  intros H. unfold support. rewrite (lsum_eq _ (fun _ => 0)).
+  intros H. unfold asupport. rewrite (lsum_eq _ (fun _ => 0)).
   - rewrite lsum_const. lra.
   - intros bw Hin. unfold dmem. rewrite (H bw Hin). reflexivity.
 Qed.
@@ -329,9 +329,9 @@ Proof.
 Qed.
 
 Lemma support_filter_top c bs cur :
-  support c (filter (fun bw => negb (is_best c bs (fst bw))) cur) == support c cur - lvl c bs cur.
+  asupport c (filter (fun bw => negb (is_best c bs (fst bw))) cur) == asupport c cur - lvl c bs cur.
 Proof.
-  unfold support. rewrite (lsum_filter_split (fun bw => if dmem (fst bw) c then snd bw else 0) (fun bw => is_best c bs (fst bw)) cur).
+  unfold asupport. rewrite (lsum_filter_split (fun bw => if dmem (fst bw) c then snd bw else 0) (fun bw => is_best c bs (fst bw)) cur).
   assert (H : lsum (fun bw : sballot * Q => if is_best c bs (fst bw) then if dmem (fst bw) c then snd bw else 0 else 0) cur == lvl c bs cur).
   { apply lsum_eq. intros bw _. destruct (is_best c bs (fst bw)) eqn:E; [rewrite (is_best_dmem _ _ _ E)|]; reflexivity. }
   rewrite H. lra.
@@ -413,7 +413,7 @@ Lemma fraction_out_spec c : forall fuel cur ss, wpos cur -> (length cur < fuel)%
   | inl cur' =>
       ~ crash_cond c cur ss /\
       exists t f, cur' = cut_at c t f cur /\ 0 <= f /\ f < 1 /\ (no_supporters c cur \/ has_score c cur t) /\
-                  wtotal cur' == wtotal cur - Qmin ss (support c cur)
+                  wtotal cur' == wtotal cur - Qmin ss (asupport c cur)
   end.
 Proof.
   induction fuel as [|fuel IH]; intros cur ss Hp Hfuel Hss; [lia|].
@@ -445,7 +445,7 @@ Proof.
     + intros [He|(Hall & _)]; [exact (Hnoempty He)|]. destruct cur as [|bw cur]; [congruence|].
       exact (Hall bw (or_introl eq_refl) (Hns bw (or_introl eq_refl))).
     + exists 0, 0. split; [symmetry; apply cut_at_no_supporters, Hns|]. split; [lra|]. split; [lra|]. split; [left; exact Hns|].
-      pose proof (support_none c cur Hns) as Hs0. destruct (Q.min_spec ss (support c cur)) as [(Ha & Hb)|(Ha & Hb)]; rewrite Hb; lra.
+      pose proof (support_none c cur Hns) as Hs0. destruct (Q.min_spec ss (asupport c cur)) as [(Ha & Hb)|(Ha & Hb)]; rewrite Hb; lra.
   - apply Qeq_bool_false in Ez. assert (Hlpos : 0 < lvl c bs cur) by (destruct (Qlt_le_dec 0 (lvl c bs cur)); [assumption|exfalso; apply Ez; lra]).
     destruct (lvl_pos_some c bs cur Hp) as (bwb & Hinb & Hbb); [intros H; lra|].
     assert (Hhas : has_score c cur bs).
@@ -472,16 +472,16 @@ Proof.
               ** exists bs, 0. split; [|split; [lra|split; [lra|split; [right; exact Hhas|]]]].
                  { rewrite Hcut, (cut_at_no_supporters _ _ _ _ Hns1). apply filter_top_cut, Hmax. }
                  pose proof (support_none c P1 Hns1) as Hz.
-                 destruct (Q.min_spec (Qred (ss - size)) (support c P1)) as [(Ha & Hb)|(Ha & Hb)]; rewrite Hb in Htot;
-                 destruct (Q.min_spec ss (support c cur)) as [(Ha' & Hb')|(Ha' & Hb')]; rewrite Hb'; lra.
+                 destruct (Q.min_spec (Qred (ss - size)) (asupport c P1)) as [(Ha & Hb)|(Ha & Hb)]; rewrite Hb in Htot;
+                 destruct (Q.min_spec ss (asupport c cur)) as [(Ha' & Hb')|(Ha' & Hb')]; rewrite Hb'; lra.
               ** apply filter_In in Hin1. destruct Hin1 as (Hin1 & Hnb1). apply negb_true_iff in Hnb1.
                  unfold is_best in Hnb1. rewrite Hs1' in Hnb1. apply Qeq_bool_false in Hnb1.
                  pose proof (Hmax bw1 s1 Hin1 Hs1') as Hle1.
                  assert (Hlt : t < bs). { apply Qle_lt_or_eq in Hle1. destruct Hle1 as [H|H]; [lra|contradiction]. }
                  exists t, f. split; [|split; [exact Hf0|split; [exact Hf1|split; [right; exists bw1, s1; auto|]]]].
                  { rewrite Hcut. apply cut_at_filter_top, Hlt. }
-                 destruct (Q.min_spec (Qred (ss - size)) (support c P1)) as [(Ha & Hb)|(Ha & Hb)]; rewrite Hb in Htot;
-                 destruct (Q.min_spec ss (support c cur)) as [(Ha' & Hb')|(Ha' & Hb')]; rewrite Hb'; lra.
+                 destruct (Q.min_spec (Qred (ss - size)) (asupport c P1)) as [(Ha & Hb)|(Ha & Hb)]; rewrite Hb in Htot;
+                 destruct (Q.min_spec ss (asupport c cur)) as [(Ha' & Hb')|(Ha' & Hb')]; rewrite Hb'; lra.
         -- destruct e; try contradiction. destruct IH as [He|(Hall & Hlt)]; [contradiction|]. right. split.
            ++ intros bw Hin. destruct (is_best c bs (fst bw)) eqn:Eb.
               ** apply is_best_true in Eb. destruct Eb as (s & Hs & _). congruence.
@@ -490,7 +490,7 @@ Proof.
       * rewrite (fraction_out_nonpos fuel P1 c _ Hnp1). split.
         -- intros [He|(Hall & Hlt)]; [exact (Hnoempty He)|]. lra.
         -- exists bs, 0. split; [apply filter_top_cut, Hmax|]. split; [lra|]. split; [lra|]. split; [right; exact Hhas|].
-           destruct (Q.min_spec ss (support c cur)) as [(Ha' & Hb')|(Ha' & Hb')]; rewrite Hb'; lra.
+           destruct (Q.min_spec ss (asupport c cur)) as [(Ha' & Hb')|(Ha' & Hb')]; rewrite Hb'; lra.
     + (* spread the subtraction across the best votes *)
       apply Qle_bool_false in Ele.
       set (fr := Qred ((size - ss) / size)).
@@ -505,7 +505,7 @@ Proof.
       * intros [He|(Hall & Hlt)]; [exact (Hnoempty He)|]. lra.
       * exists bs, fr. split; [apply scale_top_cut; [exact Hmax|lra]|]. split; [lra|]. split; [exact Hfr1|]. split; [right; exact Hhas|].
         rewrite wtotal_scale_top, Hfrl.
-        destruct (Q.min_spec ss (support c cur)) as [(Ha' & Hb')|(Ha' & Hb')]; rewrite Hb'; lra.
+        destruct (Q.min_spec ss (asupport c cur)) as [(Ha' & Hb')|(Ha' & Hb')]; rewrite Hb'; lra.
 Qed.
 
 (* ================================================================ _sum_scores *)
@@ -719,7 +719,7 @@ Qed.
    ballot that does not score [c] keeps its weight; the weight removed is min(q, weight of all supporters) *)
 Definition removal_spec (c : C) (q : Q) (cur mid : wprofile) : Prop :=
   exists t f, mid = cut_at c t f cur /\ 0 <= f /\ f < 1 /\ (no_supporters c cur \/ has_score c cur t) /\
-              wtotal mid == wtotal cur - Qmin q (support c cur).
+              wtotal mid == wtotal cur - Qmin q (asupport c cur).
 
 Lemma removal_spec_wpos c q cur mid : wpos cur -> removal_spec c q cur mid -> wpos mid.
 Proof. intros Hp (t & f & -> & Hf & _). apply cut_at_wpos; assumption. Qed.
@@ -734,7 +734,7 @@ Theorem subtract_votes_spec cur c gained mx q : wpos cur -> 0 < q ->
       ~ crash_cond c cur q /\
       exists mid, removal_spec c q cur mid /\
                   cur' = (if eliminated gained mx then subset_out c mid else mid) /\
-                  wtotal cur' == wtotal cur - Qmin q (support c cur) /\ wpos cur'
+                  wtotal cur' == wtotal cur - Qmin q (asupport c cur) /\ wpos cur'
   end.
 Proof.
   intros Hp Hq. unfold subtract_votes.
@@ -759,7 +759,7 @@ Theorem elect_one_spec cf cur el c : wpos cur -> 0 < ac_quota cf ->
       el' = eincr el c /\ ~ crash_cond c cur (ac_quota cf) /\
       exists mid, removal_spec c (ac_quota cf) cur mid /\
                   cur' = (if eliminated (gained_of cf el c) (dget (ac_max cf) c) then subset_out c mid else mid) /\
-                  wtotal cur' == wtotal cur - Qmin (ac_quota cf) (support c cur) /\ wpos cur'
+                  wtotal cur' == wtotal cur - Qmin (ac_quota cf) (asupport c cur) /\ wpos cur'
   end.
 Proof.
   intros Hp Hq. unfold elect_one.
@@ -779,7 +779,7 @@ Theorem alloc_round cf cur el rem c rest : wpos cur -> 0 < ac_quota cf -> (0 < r
       el' = eincr el c /\ rem' = (rem - 1)%nat /\ ~ crash_cond c cur (ac_quota cf) /\
       exists mid, removal_spec c (ac_quota cf) cur mid /\
                   cur' = (if eliminated (gained_of cf el c) (dget (ac_max cf) c) then subset_out c mid else mid) /\
-                  wtotal cur' == wtotal cur - Qmin (ac_quota cf) (support c cur) /\ wpos cur'
+                  wtotal cur' == wtotal cur - Qmin (ac_quota cf) (asupport c cur) /\ wpos cur'
   | AS_err e => e = AE_value /\ crash_cond c cur (ac_quota cf)
   | AS_done _ => False
   end.
@@ -921,7 +921,7 @@ Theorem alloc_every_round cf votes n cur el rem c rest : wpos votes -> 0 < ac_qu
       el' = eincr el c /\ rem' = (rem - 1)%nat /\ ~ crash_cond c cur (ac_quota cf) /\
       exists mid, removal_spec c (ac_quota cf) cur mid /\
                   cur' = (if eliminated (gained_of cf el c) (dget (ac_max cf) c) then subset_out c mid else mid) /\
-                  wtotal cur' == wtotal cur - Qmin (ac_quota cf) (support c cur) /\ wpos cur'
+                  wtotal cur' == wtotal cur - Qmin (ac_quota cf) (asupport c cur) /\ wpos cur'
   | AS_err e => e = AE_value /\ crash_cond c cur (ac_quota cf)
   | AS_done _ => False
   end.
@@ -1018,7 +1018,7 @@ Theorem alloc_select_round votes cf n cur el rem c rest cur' el' rem' :
   (scored c cur /\ forall d, scored d cur -> d <> c -> wscore cur d < wscore cur c) /\
   el' = eincr el c /\ rem' = (rem - 1)%nat /\
   exists mid, removal_spec c (ac_quota cf) cur mid /\ cur' = subset_out c mid /\
-              wtotal cur' == wtotal cur - Qmin (ac_quota cf) (support c cur) /\
+              wtotal cur' == wtotal cur - Qmin (ac_quota cf) (asupport c cur) /\
               ~ scored c cur' /\ forall x, x <> c -> wscore cur' x == wscore mid x.
 Proof.
   intros Hs Hp Hq Hr Hrem Hb Hstep.
@@ -1143,7 +1143,7 @@ Qed.
 (* a ballot of weight 0 at the winner's top level stops the subtraction: positive weights are needed *)
 Definition w_zero : wprofile := [(b1 [(1%positive, 5%Z)], 0); (b1 [(1%positive, 3%Z)], 2); (b1 [(2%positive, 1%Z)], 1)].
 Lemma alloc_zero_weight_witness :
-  fraction_out 4 w_zero 1%positive 2 = inl w_zero /\ support 1%positive w_zero == 2 /\ wposb w_zero = false.
+  fraction_out 4 w_zero 1%positive 2 = inl w_zero /\ asupport 1%positive w_zero == 2 /\ wposb w_zero = false.
 Proof. vm_compute. auto. Qed.
 
 (* the hypotheses are satisfiable: a run of three rounds *)
